@@ -596,7 +596,24 @@ fn oracle(parser: &VHDLParser, text: &str) -> String {
         }
         write!(tr, "[{},{},{}]", i, o, l).unwrap();
     }
-    let kinds: Vec<&str> = toks.iter().map(|t| kind_str(t.kind)).collect();
+    // one character per token: the kinds the dispatch of parse_design_file looks at, '.' for the rest
+    let kinds: String = toks
+        .iter()
+        .map(|t| match t.kind {
+            Kind::Library => 'l',
+            Kind::Use => 'u',
+            Kind::Context => 'c',
+            Kind::Entity => 'e',
+            Kind::Architecture => 'a',
+            Kind::Configuration => 'f',
+            Kind::Package => 'p',
+            Kind::Body => 'b',
+            Kind::Identifier => 'i',
+            Kind::Is => 's',
+            Kind::New => 'n',
+            _ => '.',
+        })
+        .collect();
     let design_file = match parsed {
         Ok(df) => df,
         Err(e) => {
@@ -609,7 +626,7 @@ fn oracle(parser: &VHDLParser, text: &str) -> String {
                 json_str(&format!("{} @ {}", m, loc)),
                 nt,
                 tr,
-                json_str(&kinds.join(" ")),
+                json_str(&kinds),
                 json_str(&format!("parse_design_source {}: {} @ {}", kind, m, loc))
             );
         }
@@ -724,23 +741,25 @@ fn oracle(parser: &VHDLParser, text: &str) -> String {
         }
     }
     let last_diag = diags.last().map(|d| fmt_range(d.pos.range())).unwrap_or_default();
-    let ranges: Vec<String> = if nt <= 64 {
-        toks.iter().map(|t| fmt_range(t.pos.range())).collect()
-    } else {
-        Vec::new()
-    };
+    // the token under the cursor at the last mark of the trace (the one that starts no unit when the
+    // loop was left through the Err return)
+    let tail_tok = trace
+        .last()
+        .and_then(|(i, _, _)| toks.get(*i))
+        .map(|t| fmt_range(t.pos.range()))
+        .unwrap_or_default();
     viol.truncate(6);
     write!(
         out,
-        "{{\"st\":\"ok\",\"nt\":{},\"nd\":{},\"nlexd\":{},\"eofd\":{},\"units\":[{}],\"trace\":[{}],\"kinds\":{},\"ranges\":{},\"last_diag\":\"{}\",\"ids\":{},\"spans\":{},\"touched\":{},\"decls\":{},\"viol\":[{}]}}",
+        "{{\"st\":\"ok\",\"nt\":{},\"nd\":{},\"nlexd\":{},\"eofd\":{},\"units\":[{}],\"trace\":[{}],\"kinds\":{},\"tail_tok\":{},\"last_diag\":\"{}\",\"ids\":{},\"spans\":{},\"touched\":{},\"decls\":{},\"viol\":[{}]}}",
         nt,
         diags.len(),
         nlexdiag,
         eofd,
         units,
         tr,
-        json_str(&kinds.join(" ")),
-        json_str(&ranges.join(" ")),
+        json_str(&kinds),
+        json_str(&tail_tok),
         last_diag,
         nids,
         nspans,
